@@ -22,6 +22,7 @@ from sa import core, aggtables as AT
 from sa.pyfront import Program
 
 RULES = {
+    "R-C04-k": "index-cube fill closures write every region of the presented cell unconditionally (no data-dependent skip): a skipped cell's rows stay in the margin and marginal differencing charges them to the common cell",
     "R-C04-j": "the input-format helper as_separate_validity (summarised by every aggregate rule) keeps its contract: a (values, validity) pair is passed through; a single array gets validity = ~isnan(array) for every dtype with a missing marker (all float widths, datetime64 / timedelta64 NaT) - a dtype shortcut to all-True is accepted only for marker-free kinds",
     "R-C04-i": "a weight given as a per-row array or as a bare scalar takes part in the constructor's row arrays (a dropped scalar weight loses its missingness and its zero)",
     "R-C04-h": "a region that receives weight or fact values is never an integer region nor typed after the weights (a weighted valid count that wraps to 0 makes a fully valid cell missing)",
@@ -81,6 +82,11 @@ def main(tier):
     for rule, status, where, cons, detail, wit in CW.items:
         rep.add(rule, where, cons, status, detail, True, wit)
     rep.floor("R-C04-i", 10, nw)
+    CE = AT.Collector()
+    ne = AT.rule_every_cell_written(prog, CE, "R-C04-k")
+    for rule, status, where, cons, detail, wit in CE.items:
+        rep.add(rule, where, cons, status, detail, True, wit)
+    rep.floor("R-C04-k", 20, ne)
     rep.floor("R-C04-a", 100, n_a)
     rep.floor("R-C04-b", 100, n_b)
     rep.floor("R-C04-c", 20, n_c)
